@@ -158,10 +158,10 @@ def encodePairs (l : List (Str × Str)) : Str :=
 /-- `SendParameters::execute`; returns the events for the sender's own external queue as well -/
 def execSend (ops : DMOps σ) (cfg : List Nat) (caller : Option Str) (p : SendP) (x : XS σ) : XS σ × Bool :=
   match altValue ops cfg x p.target p.targetExpr with
-  | (x, none) => (x, false)
+  | (x, none) => ({ x with raised := x.raised ++ [errorExecution] }, false)
   | (x, some target) =>
   match altValue ops cfg x p.event p.eventExpr with
-  | (x, none) => (x, false)
+  | (x, none) => ({ x with raised := x.raised ++ [errorExecution] }, false)
   | (x, some evName) =>
   -- generated ids (idlocation) come from a global counter: the id is reported, not predicted
   let (x, sendid) : XS σ × Option Str :=
@@ -192,7 +192,7 @@ def execSend (ops : DMOps σ) (cfg : List Nat) (caller : Option Str) (p : SendP)
       | some v => (x.absorb r, some (ops.parseDelay v))
     else (x, some (Int.ofNat p.delayMs))
   match step5 with
-  | (x, none) => (x, false)
+  | (x, none) => ({ x with raised := x.raised ++ [errExec sendid caller] }, false)
   | (x, some delay) =>
   if delay < 0 then ({ x with raised := x.raised ++ [errExec sendid caller] }, false)
   else if delay > 0 && target == targetInternal then ({ x with raised := x.raised ++ [errExec sendid caller] }, false)
@@ -232,13 +232,15 @@ def execItem (ops : DMOps σ) (rs : Regions) (cfg : List Nat) (caller : Option S
       else (x, true)
     | .expr src =>
       let r := ops.exec x.dm cfg src
-      (x.absorb r, r.val.isSome)
+      -- `Expression::execute` raises error.execution itself when the data model reports an error
+      let x := x.absorb r
+      (if r.val.isNone then { x with raised := x.raised ++ [errorExecution] } else x, r.val.isSome)
     | .script regions => execRegions ops rs cfg caller f regions x
     | .log _ e =>
       let r := ops.exec x.dm cfg e
       match r.val with
       | some msg => ((x.absorb r).absorb (ops.log r.dm msg), true)
-      | none => (x.absorb r, false)
+      | none => ({ (x.absorb r) with raised := (x.absorb r).raised ++ [errorExecution] }, false)
     | .foreach array item index body =>
       let idx := if index.isEmpty then [95,95,36,105,110,100,101,120] else index
       let r := ops.foreachStart x.dm cfg array item idx
@@ -252,7 +254,7 @@ def execItem (ops : DMOps σ) (rs : Regions) (cfg : List Nat) (caller : Option S
       match altValue ops cfg x sendid sendidExpr with
       -- removes the guard of the delayed send registered under that id (invisible here)
       | (x, some _) => (x, true)
-      | (x, none) => (x, true)
+      | (x, none) => ({ x with raised := x.raised ++ [errorExecution] }, true)
     | .assign loc e =>
       let r := ops.assign x.dm cfg loc e
       (x.absorb r, r.val)
